@@ -9,7 +9,7 @@ import sys
 import tempfile
 from math import prod
 
-from checks.c06_replay import _vals, _build
+from checks.c06_replay import _vals, _build, perturb, lowp_problem
 
 
 def _orig_vals(cfg, vals, name, i, shape, k=None):
@@ -50,7 +50,10 @@ def worker(rank, world, cfgfile, initfile, outfile):
         from torch.distributed.device_mesh import init_device_mesh
 
         mesh = init_device_mesh("cpu", (hsdp["replicate"], nshard), mesh_dim_names=("replicate", "shard"))
-        dc = HSDPShampooConfig(param_to_metadata=meta, device_mesh=mesh, num_trainers_per_group=hsdp.get("group", -1), communicate_params=hsdp.get("communicate_params", False))
+        from distributed_shampoo.shampoo_types import CommunicationDType
+
+        dc = HSDPShampooConfig(param_to_metadata=meta, device_mesh=mesh, num_trainers_per_group=hsdp.get("group", -1), communicate_params=hsdp.get("communicate_params", False),
+                               communication_dtype=getattr(CommunicationDType, hsdp.get("comm", "FP32")))
     else:
         dc = FSDPShampooConfig(param_to_metadata=meta)
     _, opt = _build(c2, vals, dc, given_params=params)
@@ -72,6 +75,9 @@ def replay(record):
     vals = _vals(record)
     origs = [tuple(s) for s in cfg["orig_shapes"]]
     hsdp = cfg.get("hsdp")
+    low = (hsdp or {}).get("comm", "FP32") in ("BF16", "FP16")
+    if low:
+        vals = perturb(vals)
     nshard = len(cfg["cuts"])
     world = nshard * (hsdp["replicate"] if hsdp else 1)
     root = os.path.dirname(os.path.dirname(os.path.abspath(__file__)))
@@ -117,6 +123,14 @@ def replay(record):
                 r = rep * nshard + srank if hsdp else srank
                 got = json.load(open(os.path.join(d, f"out{r}.json")))
                 for i, (s, e) in enumerate(my):
+                    if low and e > s:
+                        if got[i] != json.load(open(os.path.join(d, f"out{srank}.json")))[i]:
+                            problems.append(f"rank {r}: parameter {i} differs from replica 0 (replicas not identical)")
+                        pr = lowp_problem(torch.tensor(got[i], dtype=torch.float64), torch.tensor([exp[(i, s + off)] for off in range(e - s)], dtype=torch.float64), flat[i][s:e],
+                                          hsdp["comm"], hsdp.get("communicate_params", False))
+                        if pr:
+                            problems.append(f"rank {r}: parameter {i}: {pr}")
+                        continue
                     for off in range(e - s):
                         if abs(got[i][off] - exp[(i, s + off)]) > 1e-6 * (1 + abs(exp[(i, s + off)])):
                             problems.append(f"rank {r}: element {s + off} of parameter {i}: {got[i][off]} vs serial-on-blocks {exp[(i, s + off)]}")
